@@ -8,7 +8,7 @@ import glob, json, os, shutil, subprocess, sys
 from concurrent.futures import ThreadPoolExecutor
 props = {json.loads(l)["id"]: json.loads(l) for l in open("/verif/properties.jsonl")}
 jobs = []
-for d in sorted(glob.glob("/tmp/seedwork/C*_out")):
+for d in sorted(glob.glob(os.environ.get("SEEDROOT", "/tmp/seedwork") + "/C*_out")):
     pid = os.path.basename(d)[:3]
     for n in (1, 2):
         if os.path.exists("%s/patch%d.diff" % (d, n)) and os.path.exists("%s/demo%d.py" % (d, n)):
@@ -35,18 +35,18 @@ for (pid, n, res), (_, _, d) in zip(results, jobs):
     print(pid, n, "confirmed" if ok else "NOT-CONFIRMED", "caught" if chk.get("rc") == 1 else "missed(rc=%s)" % chk.get("rc"), (res.get("baseline_missing") or "")[:3] if not ok else "")
     if not ok:
         continue
-    dst = "/verif/seeded/%s%s" % (pid, "ab"[n - 1])
+    dst = "/verif/seeded/%s%s" % (pid, os.environ.get("SEEDLETTERS", "ab")[n - 1])
     os.makedirs(dst, exist_ok=True)
     shutil.copy("%s/patch%d.diff" % (d, n), dst + "/patch.diff")
     shutil.copy("%s/demo%d.py" % (d, n), dst + "/demo.py")
     note = open("%s/note%d.md" % (d, n)).read() if os.path.exists("%s/note%d.md" % (d, n)) else ""
-    meta = {"id": "%s%s" % (pid, "ab"[n - 1]), "property": pid, "title": props[pid]["title"],
+    meta = {"id": "%s%s" % (pid, os.environ.get("SEEDLETTERS", "ab")[n - 1]), "property": pid, "title": props[pid]["title"],
             "needs_to_manifest": note[:1500],
             "origin": "independent sub-agent given only the property record and a scratch worktree (tools/seed_prompt.py)",
             "confirmed": {"patch_applies_to_repo_head": True, "demo_exit_without_change": 0, "demo_exit_with_change": 1,
                           "pinned_suite_stable_pass_missing_with_change": []},
             "what_i_ran": ["tools/try_seed.py patch.diff demo.py %s   (scratch worktree of /repo HEAD under /tmp/mut, removed afterwards)" % pid,
-                           "apply to /repo: git -C /repo apply /verif/seeded/%s%s/patch.diff ; ./check %s ; git -C /repo checkout -- ." % (pid, "ab"[n - 1], pid)],
+                           "apply to /repo: git -C /repo apply /verif/seeded/%s%s/patch.diff ; ./check %s ; git -C /repo checkout -- ." % (pid, os.environ.get("SEEDLETTERS", "ab")[n - 1], pid)],
             "check_result": {"check": pid, "tier": "quick", "exit": chk.get("rc"), "violations": chk.get("violations"),
                              "first_violation": chk.get("first")}}
     json.dump(meta, open(dst + "/meta.json", "w"), indent=1)
